@@ -178,4 +178,164 @@ theorem m_caps_ext (e : Env) : ∀ (p : Pat) (rtl : Bool) (st : St), ∀ st' ∈
       exact ⟨e1 ++ e2, by rw [he2]; simp [he1]⟩
     · exact ihn rtl st st' h
 
+/-! ## direction, and one round of `iter` -/
+
+/-- `b` lies at or beyond `a` in the direction of the match -/
+def dirLe (rtl : Bool) (a b : Nat) : Prop := if rtl then b ≤ a else a ≤ b
+
+theorem dirLe_refl (rtl : Bool) (a : Nat) : dirLe rtl a a := by cases rtl <;> simp [dirLe]
+
+theorem dirLe_trans {rtl : Bool} {a b c : Nat} (h1 : dirLe rtl a b) (h2 : dirLe rtl b c) : dirLe rtl a c := by
+  cases rtl <;> simp only [dirLe, Bool.false_eq_true, if_false, if_true] at * <;> omega
+
+/-- a pattern only moves the position in its direction -/
+theorem m_dir (e : Env) : ∀ (p : Pat) (rtl : Bool) (st : St), ∀ st' ∈ m e p rtl st, dirLe rtl st.pos st'.pos := by
+  intro p
+  induction p with
+  | empty => intro rtl st st' h; simp [m] at h; subst h; exact dirLe_refl _ _
+  | nothing => intro rtl st st' h; simp [m] at h
+  | chr pr =>
+    intro rtl st st' h
+    simp only [m] at h
+    split at h
+    · next r pos' hs =>
+      split at h
+      · simp at h; subst h
+        unfold stepChar at hs
+        cases rtl with
+        | true =>
+          simp only [if_true] at hs
+          split at hs
+          · cases hs
+          · cases hg : e.text[st.pos - 1]? with
+            | none => simp [hg] at hs
+            | some x => simp [hg] at hs; simp only [dirLe, if_true]; omega
+        | false =>
+          simp only [Bool.false_eq_true, if_false] at hs
+          cases hg : e.text[st.pos]? with
+          | none => simp [hg] at hs
+          | some x => simp [hg] at hs; simp only [dirLe, Bool.false_eq_true, if_false]; omega
+      · simp at h
+    · simp at h
+  | anchor a =>
+    intro rtl st st' h
+    simp only [m] at h
+    split at h
+    · simp at h; subst h; exact dirLe_refl _ _
+    · simp at h
+  | seq a b iha ihb =>
+    intro rtl st st' h
+    simp only [m] at h
+    split at h
+    · simp only [List.mem_flatMap] at h
+      obtain ⟨mid, hmid, h⟩ := h
+      exact dirLe_trans (ihb rtl st mid hmid) (iha rtl mid st' h)
+    · simp only [List.mem_flatMap] at h
+      obtain ⟨mid, hmid, h⟩ := h
+      exact dirLe_trans (iha rtl st mid hmid) (ihb rtl mid st' h)
+  | alt a b iha ihb =>
+    intro rtl st st' h
+    simp only [m] at h
+    rcases List.mem_append.1 h with h | h
+    · exact iha rtl st st' h
+    · exact ihb rtl st st' h
+  | quant lzy lo hi body ih =>
+    intro rtl st st' h
+    simp only [m] at h
+    exact iter_preserves (fun x => dirLe rtl st.pos x.pos) (m e body rtl)
+      (fun s hs s' hs' => dirLe_trans hs (ih rtl s s' hs')) lzy lo hi _ 0 st (dirLe_refl _ _) st' h
+  | cap g body ih =>
+    intro rtl st st' h
+    simp only [m, List.mem_map] at h
+    obtain ⟨mid, hmid, rfl⟩ := h
+    exact ih rtl st mid hmid
+  | look behind neg body ih =>
+    intro rtl st st' h
+    simp only [m] at h
+    split at h
+    · split at h
+      · simp at h; subst h; exact dirLe_refl _ _
+      · simp at h
+    · split at h
+      · simp at h
+      · simp at h; subst h; exact dirLe_refl _ _
+  | atomic body ih =>
+    intro rtl st st' h
+    simp only [m] at h
+    exact ih rtl st st' (List.mem_of_mem_take h)
+  | ref g ci =>
+    intro rtl st st' h
+    simp only [m] at h
+    split at h
+    · simp at h
+    · next s len _ =>
+      split at h
+      · next pos' hr =>
+        simp at h; subst h
+        unfold refMatch at hr
+        cases rtl with
+        | true =>
+          simp only [if_true] at hr
+          split at hr
+          · cases hr
+          · split at hr
+            · simp at hr; simp only [dirLe, if_true]; omega
+            · cases hr
+        | false =>
+          simp only [Bool.false_eq_true, if_false] at hr
+          split at hr
+          · simp at hr; simp only [dirLe, Bool.false_eq_true, if_false]; omega
+          · cases hr
+      · simp at h
+  | refCond g y n ihy ihn =>
+    intro rtl st st' h
+    simp only [m] at h
+    split at h
+    · exact ihy rtl st st' h
+    · exact ihn rtl st st' h
+  | exprCond c y n ihc ihy ihn =>
+    intro rtl st st' h
+    simp only [m] at h
+    split at h
+    · next x _ _ => exact ihy rtl { pos := st.pos, caps := x.caps } st' h
+    · exact ihn rtl st st' h
+
+/-- what `iter` does with a success `st'` of the body started at position `q` after `cnt` completed iterations -/
+def iterNext (f : St → List St) (lzy : Bool) (lo : Nat) (hi : Option Nat) (fuel cnt q : Nat) (st' : St) : List St :=
+  if st'.pos == q && decide (lo ≤ cnt + 1) then [st'] else iter f lzy lo hi fuel (cnt + 1) st'
+
+theorem iter_succ (f : St → List St) (lzy : Bool) (lo : Nat) (hi : Option Nat) (fuel cnt : Nat) (st : St) :
+    iter f lzy lo hi (fuel + 1) cnt st =
+      (if lzy then (if lo ≤ cnt then [st] else []) ++
+          (if canGo hi cnt then (f st).flatMap (iterNext f lzy lo hi fuel cnt st.pos) else [])
+        else (if canGo hi cnt then (f st).flatMap (iterNext f lzy lo hi fuel cnt st.pos) else []) ++
+          (if lo ≤ cnt then [st] else [])) := by
+  have hfun : (fun st' => if (st'.pos == st.pos && decide (lo ≤ cnt + 1)) = true then [st']
+      else iter f lzy lo hi fuel (cnt + 1) st') = iterNext f lzy lo hi fuel cnt st.pos := by
+    funext st'; rfl
+  simp only [iter, hfun]
+
+/-- the list a loop's tail instruction delivers when it is reached at `st` after `k` iterations, the last one started
+    at `q` (`-1`: none yet), if `rest` is what another round of the body delivers -/
+def tailList (lzy : Bool) (lo : Nat) (hi : Option Nat) (k : Nat) (q : Int) (st : St) (rest : List St) : List St :=
+  if lzy then (if lo ≤ k then [st] else []) ++
+      (if canGo hi k && !(decide (q = (st.pos : Int)) && decide (lo ≤ k)) then rest else [])
+  else (if canGo hi k && !(decide (q = (st.pos : Int)) && decide (lo ≤ k)) then rest else []) ++
+      (if lo ≤ k then [st] else [])
+
+/-- the empty iteration that ends the loop -/
+theorem tailList_stop {lzy : Bool} {lo : Nat} {hi : Option Nat} {k : Nat} {q : Int} {st : St} {rest : List St}
+    (hq : q = (st.pos : Int)) (hk : lo ≤ k) : tailList lzy lo hi k q st rest = [st] := by
+  cases lzy <;> simp [tailList, hq, hk]
+
+/-- another round -/
+theorem tailList_go {f : St → List St} {lzy : Bool} {lo : Nat} {hi : Option Nat} {fuel k : Nat} {q : Int} {st : St}
+    (hq : ¬ (q = (st.pos : Int) ∧ lo ≤ k)) :
+    tailList lzy lo hi k q st ((f st).flatMap (iterNext f lzy lo hi fuel k st.pos)) =
+      iter f lzy lo hi (fuel + 1) k st := by
+  have : (decide (q = (st.pos : Int)) && decide (lo ≤ k)) = false := by
+    rw [Bool.eq_false_iff]; intro h; simp only [Bool.and_eq_true, decide_eq_true_eq] at h; exact hq h
+  rw [iter_succ]
+  simp only [tailList, this, Bool.not_false, Bool.and_true]
+
 end RegexVerif.Compile
